@@ -50,6 +50,9 @@ def main(tier):
     chk.rule("USE", "whoever inspects an Orchard-family builder's contents consults every list that "
              "the builder's adders fill", floor=2)
     chk.rule("SIGN", "the signed input is the one committed to", floor=5)
+    chk.rule("SIZES", "the fee prices transparent inputs and outputs by the serialized size of each whole element", floor=2)
+    chk.rule("PRESENT", "the transparent bundle is omitted exactly when inputs and outputs are both empty", floor=2)
+    chk.rule("SHSIG", "shielded signatures sign the shielded signature hash", floor=3)
     chk.rule("ROLE", "bundle-shape calculators get spends as spends and outputs as outputs", floor=16)
     chk.rule("control", "positive controls", floor=1)
     ps_rules.ps1(chk, FILES)
@@ -72,6 +75,9 @@ def main(tier):
     sign(chk, w)
     content_lists(chk, w, scope)
     multisig_order(chk, w)
+    fee_sizes(chk, w)
+    transparent_presence(chk, w)
+    shielded_commitment(chk, w)
     w2 = zf.World(extract.facts_dir("all"), ["zcash_primitives", "zcash_client_backend"])
     chk.analysed["role_sites"] = bundle_shape_roles(chk, w2)
     chk.finish()
@@ -93,6 +99,137 @@ def _roles(txt):
     if re.search(r"\b(inputs|spends)\(|_(spends|inputs)\b|\b(spends|inputs)\b", txt):
         out.add("spends")
     return out
+
+
+def fee_sizes(chk, w):
+    """SIZES: ZIP 317 prices the transparent part by SERIALIZED SIZE - of the whole input (prevout, script, sequence)
+    and of the whole output (8-byte value, script length, script). Builder::get_fee must hand fee_required, per
+    transparent input and per output of its transparent builder, `InputView::serialized_size` /
+    `OutputView::serialized_size` of that element itself - the size of only its script is 8 bytes (outputs) short, so
+    from five P2PKH outputs on the fee is an action too low."""
+    import closures
+    fs = [f for f in w.fns.values() if f.p == "zcash_primitives::transaction::builder::Builder::<P, U>::get_fee"]
+    if len(fs) != 1:
+        chk.fail("SIZES", "missing", "Builder::get_fee not found")
+        return
+    f = fs[0]
+    b = f.body
+    du = closures.deep()(b)
+    calls = [t for bb, t in b.calls() if not b.blocks[bb].cleanup and t.callee.indirect is None and
+             t.callee.target_p().endswith("::fee_required")]
+    if len(calls) != 1:
+        chk.fail("SIZES", "call", "get_fee does not call fee_required exactly once", f.span.loc())
+        return
+    tg = w.fns.get(calls[0].callee.id) or w.fns.get(calls[0].callee.target_id())
+    names = (tg.argnames if tg is not None and tg.argnames else None) or \
+        ["self", "params", "target_height", "transparent_input_sizes", "transparent_output_sizes"]
+    for which, acc, view in (("transparent_input_sizes", "inputs", "InputView"), ("transparent_output_sizes", "outputs", "OutputView")):
+        if which not in names:
+            chk.fail("SIZES", which + "/param", "fee_required has no %s parameter" % which, f.span.loc())
+            continue
+        o = closures.norm(du.origin(calls[0].args[names.index(which)]))
+        good = False
+        detail = defuse.show(o)[:100]
+        if o[0] == "call" and o[1].endswith("::map") and len(o[2]) == 2:
+            src = defuse.show(o[2][0])
+            r = closures.closure_result(w, o[2][1], [("element",)])
+            r = closures.norm(r) if r is not None else None
+            detail = "%s mapped to %s" % (src[:60], defuse.show(r)[:80] if r else "?")
+            good = src == "iter(%s(arg0.transparent_builder))" % acc and r is not None and r[0] == "call" and \
+                re.search(r"%s>?::serialized_size$" % view, r[1]) is not None and [closures.norm(x) for x in r[2]] == [("element",)]
+        if not good and which == "transparent_input_sizes" and (
+                (o[0] == "call" and o[1].endswith("::empty")) or
+                (o[0] == "call" and o[1].endswith("::map") and defuse.show(o[2][0]) == "iter(array{})")):
+            # a build without the transparent-inputs feature: the size list is an empty literal
+            chk.ok("SIZES", "get_fee: no transparent inputs are priced in this build configuration (empty literal)")
+            continue
+        if good:
+            chk.ok("SIZES", "get_fee: %s = %s::serialized_size of every element of the transparent builder's %s" % (which, view, acc),
+                   sample=True)
+        else:
+            chk.fail("SIZES", which, "get_fee prices the transparent %s by `%s`, not by the serialized size of each whole element"
+                     % (acc, detail), calls[0].span.loc())
+
+
+def transparent_presence(chk, w):
+    """PRESENT: TransparentBuilder::build and build_for_pczt leave the transparent bundle out exactly when there are
+    no inputs AND no outputs. The Builder has already checked the balance over the transparent builder's inputs
+    and outputs, so dropping a bundle that has only outputs (a shielded-to-transparent payment) or only inputs
+    (shielding) turns their value into fee; and the two build paths must agree. Decided by assuming each of the
+    four outcomes of the two is_empty tests and looking at which results are reachable."""
+    n = 0
+    for name in ("build", "build_for_pczt"):
+        fs = [f for f in w.fns.values() if f.p == "zcash_transparent::builder::TransparentBuilder::" + name]
+        if len(fs) != 1:
+            chk.fail("PRESENT", name + "/missing", "TransparentBuilder::%s not found" % name)
+            continue
+        f = fs[0]
+        b = f.body
+        du = defuse.DefUse(b)
+        emp = [(bb, t) for bb, t in b.calls() if not b.blocks[bb].cleanup and t.callee.indirect is None and
+               t.callee.target_p().endswith("::is_empty")]
+        ins = [bb for bb, t in emp if ".vout" not in defuse.show(du.origin(t.args[0]))]
+        outs = [bb for bb, t in emp if ".vout" in defuse.show(du.origin(t.args[0]))]
+        if len(ins) != 1 or len(outs) != 1:
+            chk.fail("PRESENT", name + "/tests", "%s does not test the inputs and the outputs for emptiness exactly once each "
+                     "(inputs: %d, outputs: %d)" % (name, len(ins), len(outs)), f.span.loc())
+            continue
+        n += 1
+        bad = []
+        for ie in (True, False):
+            for oe in (True, False):
+                # the second test may be skipped by short-circuiting: explore with both assumed
+                res = S.explore(b, 0, {}, call_results={ins[0]: S.B(ie), outs[0]: S.B(oe)})
+                rets = {rv for _b, rv in res.returns}
+                want = {"variant:None"} if (ie and oe) else {"variant:Some"}
+                if not rets or not rets <= want:
+                    bad.append("inputs %s, outputs %s -> %s" % ("empty" if ie else "present", "empty" if oe else "present", sorted(rets)))
+        if not bad:
+            chk.ok("PRESENT", "TransparentBuilder::%s returns None exactly when inputs and outputs are both empty" % name, sample=True)
+        else:
+            chk.fail("PRESENT", name, "TransparentBuilder::%s: %s (a bundle must be produced unless both are empty)" % (name, "; ".join(bad)),
+                     f.span.loc())
+    if n < 2:
+        chk.fail("PRESENT", "sites", "expected build and build_for_pczt, analysed %d" % n)
+
+
+def shielded_commitment(chk, w):
+    """SHSIG: every shielded authorisation made by Builder::build_internal (Sapling spend-auth and binding signatures,
+    Orchard / Ironwood spend-auth and binding signatures) signs signature_hash(tx, SignableInput::Shielded, txid
+    parts) - under ZIP 244 that digest equals the txid only for transactions without transparent inputs, so signing
+    the txid makes every shielding transaction's shielded signatures invalid while build() still returns Ok. The
+    message handed to each apply_signatures is traced to its origin across the closures."""
+    import c15_wf
+    import closures
+    roots = [f for f in w.fns.values() if f.p == "zcash_primitives::transaction::builder::Builder::<P, U>::build_internal"]
+    if len(roots) != 1:
+        chk.fail("SHSIG", "missing", "Builder::build_internal not found")
+        return
+    order = c15_wf.build(w, roots[0])
+    n = 0
+    for F in order:
+        b = F.f.body
+        for bb, t in b.calls():
+            if b.blocks[bb].cleanup or t.callee.indirect is not None or len(t.args) < 3:
+                continue
+            nm = t.callee.target_p()
+            if not re.search(r"^(sapling_crypto|orchard)::.*::apply_signatures(::<.*>)?$", nm):
+                continue
+            o = F.to_root(F.du.origin(t.args[2]))
+            while o[0] == "call" and re.search(r"::(as_ref|deref|clone|into|from|borrow)$", o[1]) and o[2]:
+                o = closures.norm(o[2][0])
+            n += 1
+            pool = "Sapling" if nm.startswith("sapling") else "Orchard-protocol"
+            good = o[0] == "call" and o[1].endswith("sighash::signature_hash") and len(o[2]) >= 2 and \
+                "SignableInput::Shielded" in defuse.show(o[2][1])
+            if good:
+                chk.ok("SHSIG", "build_internal: the %s signatures are made over signature_hash(.., SignableInput::Shielded, ..)" % pool,
+                       sample=(n == 1))
+            else:
+                chk.fail("SHSIG", "build_internal/%s#%d" % (pool, n), "the %s signatures are made over `%s`, not over the shielded "
+                         "signature hash of the transaction" % (pool, defuse.show(o)[:120]), t.span.loc())
+    if n < 3:
+        chk.fail("SHSIG", "sites", "expected the Sapling, Orchard and Ironwood apply_signatures calls, found %d" % n)
 
 
 def bundle_shape_roles(chk, w):
